@@ -236,6 +236,7 @@ class Engine:
             return z3.BoolVal(True)
         if t in (FUNC, CLS, MOD): return z3.BoolVal(True)
         if isinstance(t, OpaqueT):
+            if t.n in getattr(self.reg, 'always_truthy', ()): return z3.BoolVal(True)
             f = z3.Function('truthy_' + t.n, sort_of(t), z3.BoolSort())
             return f(v.z)
         raise Unsupported('truth value of %s' % t)
